@@ -20,6 +20,7 @@
   window, the single wrapped translation per operator.
 -/
 import ShelxModel.C14
+import ShelxModel.Extracted.C14Consts
 import Mathlib.Tactic.Ring
 import Mathlib.Tactic.Linarith
 
@@ -551,5 +552,14 @@ theorem bonded_images_present_fails_outside_window :
   · revert h; decide +kernel
   · simp only [exRing, List.mem_cons, List.not_mem_nil, or_false] at hb
     rcases hb with rfl | rfl <;> revert hco <;> decide +kernel
+
+/-! ### the tie of the duplicate distance to the property's number
+
+  `no_coincident_same_part` and `imagePresent` speak about `ker.dupLim`, whatever it is; the property names the distance:
+  0.2 A.  The kernel the driver runs takes `dupLim` from `Extracted/C14Consts.lean`, i.e. from what `packer` of the working
+  tree was observed to do (extract/probe_c14.py), so this is re-checked on every run: a tree whose `packer` suppresses images
+  at another distance no longer proves the property as stated (larger: bonded images go missing; smaller: atoms of one PART
+  closer than 0.2 A). -/
+theorem dupLim_is_the_property_distance : Consts.dupLimR = 1 / 5 := by decide +kernel
 
 end Shelx.C14
